@@ -862,3 +862,480 @@ CODE_MEANING = {1: "both raise but different exceptions", 2: "one side raises, t
 def case_file(terms: list[str]) -> str:
     return (CASE_HEADER + "Definition cases : list case :=\n [" + ";\n  ".join(terms) + "].\n"
             "Eval vm_compute in (codes cases).\n")
+
+
+# --------------------------------------------------------------------------- hand-written scenarios (corpus)
+
+def builtin_scenario(name: str):
+    import numpy as np
+    import onnx_ir as ir
+    F = ir.DataType.FLOAT
+    gen = Gen(random.Random(0), 1)
+
+    def val(n, **kw):
+        return ir.Value(name=n, type=ir.TensorType(F), shape=ir.Shape([1, "N"]), **kw)
+    allow = False
+    kind = 0
+    if name == "dtype_setter":
+        # fixed defect (823601c): cloned values shared the type object with the original
+        x = val("x")
+        n = ir.Node("", "Relu", [x], name="n")
+        n.outputs[0].name, n.outputs[0].type, n.outputs[0].shape = "y", ir.TensorType(F), ir.Shape([2])
+        g = ir.Graph([x], n.outputs, nodes=[n], name="g", opset_imports={"": 20})
+        target = g
+    elif name == "unsorted_outer":
+        # known finding: node B listed before the node A that produces its input
+        x = val("x")
+        a = ir.Node("", "Relu", [x], name="A")
+        a.outputs[0].name = "a"
+        b = ir.Node("", "Neg", [a.outputs[0]], name="B")
+        b.outputs[0].name = "b"
+        g = ir.Graph([x], b.outputs, nodes=[b, a], name="g", opset_imports={"": 20})
+        target, allow = g, True
+    elif name == "subgraph_capture":
+        x = val("x")
+        w = val("w", const_value=ir.Tensor(np.array([1.0], dtype=np.float32), name="w"))
+        inner = ir.Node("", "Add", [x, w], name="inner")
+        inner.outputs[0].name = "io"
+        sub = ir.Graph([], inner.outputs, nodes=[inner], name="then", opset_imports={"": 20})
+        c = val("c")
+        n = ir.Node("", "If", [c], [ir.AttrGraph("then_branch", sub), ir.AttrInt64("k", 3)], name="if")
+        n.outputs[0].name = "o"
+        n.meta["note"] = [1, 2]
+        n.meta.invalidate("note")
+        g = ir.Graph([x, c], n.outputs, nodes=[n], initializers=[w], name="g", opset_imports={"": 20},
+                     metadata_props={"a": "b"})
+        target, allow = sub, True
+    elif name == "subgraph_capture_rejected":
+        sc = builtin_scenario("subgraph_capture")
+        sub = sc["target"]
+        sc["clone"] = lambda: sub.clone()
+        sc["allow"] = False
+        return sc
+    else:
+        raise KeyError(name)
+    model = ir.Model(target if name != "subgraph_capture" else g, ir_version=10)
+    tgt = target
+    al = allow
+    return {"model": model, "gen": gen, "target": tgt, "univ": [model], "kind": kind, "allow": al, "deep": False,
+            "clone": lambda: tgt.clone(allow_outer_scope_values=al)}
+
+
+def scenario_of(spec: dict):
+    if "builtin" in spec:
+        return builtin_scenario(spec["builtin"])
+    return build_scenario(spec)
+
+
+# --------------------------------------------------------------------------- the property oracle (public API only)
+
+def serialize(ir, root) -> bytes:
+    from onnx_ir import serde
+    if isinstance(root, ir.Model):
+        return serde.serialize_model(root).SerializeToString(deterministic=True)
+    if isinstance(root, ir.Function):
+        return serde.serialize_function(root).SerializeToString(deterministic=True)
+    return serde.serialize_graph(root).SerializeToString(deterministic=True)
+
+
+def type_chain(t):
+    out = []
+    while t is not None:
+        out.append((type(t).__name__, getattr(t, "denotation", None)))
+        inner = getattr(t, "elem_type", None)
+        if inner is None or not hasattr(inner, "dtype") or type(inner).__name__ not in TYPE_KIND:
+            out.append(("dtype", int(t.dtype)))
+            break
+        t = inner
+    return out
+
+
+def type_objects(t):
+    out = []
+    while t is not None and type(t).__name__ in TYPE_KIND:
+        out.append(t)
+        t = getattr(t, "elem_type", None) if TYPE_KIND[type(t).__name__] >= 2 else None
+    return out
+
+
+def snapshot(ir, root, skip_uses_of=()):
+    """Everything the public accessors return for the objects reachable from root, with object identity
+    replaced by first-encounter numbers (so aliasing structure is part of the snapshot)."""
+    num: dict[int, int] = {}
+    skip = {id(v) for v in skip_uses_of}
+
+    def ref(o):
+        if o is None:
+            return None
+        return num.setdefault(id(o), len(num))
+
+    def meta(o):
+        return {"mp": list(o.metadata_props.items()), "meta": [(k, repr(v)) for k, v in o.meta.items()],
+                "invalid": sorted(k for k in list(o.meta) + ["m1", "m2", "m3", "m9", "mm", "note"] if not o.meta.is_valid(k))}
+
+    def value(v):
+        sh = v.shape
+        d = {"id": ref(v), "name": v.name, "type": type_chain(v.type), "type_obj": ref(v.type),
+             "dtype": None if v.dtype is None else int(v.dtype),
+             "shape": None if sh is None else {"obj": ref(sh), "dims": [repr(x) for x in sh.dims], "frozen": sh.frozen,
+                                              "den": [sh.get_denotation(i) for i in range(len(sh))]},
+             "doc": v.doc_string, "const": None if v.const_value is None else id(v.const_value),
+             "flags": [v.is_graph_input(), v.is_graph_output(), v.is_initializer()],
+             "producer": ref(v.producer()), "index": v.index(), "graph": ref(v.graph)}
+        d.update(meta(v))
+        if id(v) not in skip:
+            d["uses"] = sorted((ref(u.node), u.idx) for u in v.uses())
+        return d
+
+    def attr(a):
+        T = ir.AttributeType
+        if a.is_ref():
+            return {"name": a.name, "ref": a.ref_attr_name, "type": int(a.type)}
+        if a.type == T.GRAPH:
+            return {"name": a.name, "graph": graph(a.value), "doc": a.doc_string}
+        if a.type == T.GRAPHS:
+            return {"name": a.name, "graphs": [graph(g) for g in a.value], "doc": a.doc_string}
+        v = a.value
+        return {"name": a.name, "type": int(a.type), "doc": a.doc_string,
+                "value": id(v) if a.type in (T.TENSOR, T.TENSORS) else repr(v)}
+
+    def node(n):
+        d = {"id": ref(n), "name": n.name, "domain": n.domain, "op": n.op_type, "overload": n.overload,
+             "version": n.version, "doc": n.doc_string, "inputs": [ref(v) for v in n.inputs],
+             "input_names": [None if v is None else v.name for v in n.inputs],
+             "outputs": [value(v) for v in n.outputs], "attrs": [(k, attr(a)) for k, a in n.attributes.items()],
+             "graph": ref(n.graph),
+             "dev": [(id(c.configuration), c.pipeline_stage,
+                      [(ref(s.value), repr((s.device, s.index_to_device_group_map, s.sharded_dims)))
+                       for s in c.sharding_specs]) for c in n.device_configurations]}
+        d.update(meta(n))
+        return d
+
+    def graph(g):
+        d = {"id": ref(g), "name": g.name, "doc": g.doc_string, "opset": list(g.opset_imports.items()),
+             "inputs": [value(v) for v in g.inputs], "inits": [(k, value(v)) for k, v in g.initializers.items()],
+             "nodes": [node(n) for n in g], "outputs": [(ref(v), v.name) for v in g.outputs]}
+        d.update(meta(g))
+        return d
+    if isinstance(root, ir.Model):
+        d = {"graph": graph(root.graph), "ir_version": root.ir_version, "producer": root.producer_name,
+             "doc": root.doc_string, "dev": [id(c) for c in root.device_configurations],
+             "functions": [(list(k), {"domain": f.domain, "name": f.name, "overload": f.overload,
+                                     "attrs": [(k2, attr(a)) for k2, a in f.attributes.items()],
+                                     "graph": graph(f._graph)})  # noqa: SLF001
+                           for k, f in root.functions.items()]}
+        d.update(meta(root))
+        return d
+    if isinstance(root, ir.Function):
+        return {"domain": root.domain, "name": root.name, "overload": root.overload,
+                "attrs": [(k2, attr(a)) for k2, a in root.attributes.items()], "graph": graph(root._graph)}  # noqa: SLF001
+    return graph(root)
+
+
+def mutable_objects(ir, root, deep_meta: bool):
+    """id -> description of every mutable object reachable from root that a clone must not share."""
+    vals, nodes, graphs = collect(ir, root)
+    out = {}
+
+    def put(o, what):
+        out[id(o)] = what
+    for v in vals:
+        put(v, f"value {v.name}")
+        for t in type_objects(v.type):
+            put(t, f"type object of value {v.name}")
+        if v.shape is not None:
+            put(v.shape, f"shape of value {v.name}")
+    for o, what in [(v, f"value {v.name}") for v in vals] + [(n, f"node {n.name}") for n in nodes] + \
+                   [(g, f"graph {g.name}") for g in graphs]:
+        put(o.metadata_props, f"metadata_props of {what}")
+        put(o.meta, f"meta of {what}")
+        if deep_meta:
+            for k, x in o.meta.items():
+                if isinstance(x, list):
+                    put(x, f"meta[{k}] of {what}")
+    for n in nodes:
+        put(n, f"node {n.name}")
+        for a in n.attributes.values():
+            if not a.is_ref() and a.type in (ir.AttributeType.GRAPH, ir.AttributeType.GRAPHS):
+                put(a, f"graph attribute {a.name} of node {n.name}")
+    for g in graphs:
+        put(g, f"graph {g.name}")
+        put(g.opset_imports, f"opset_imports of graph {g.name}")
+    if isinstance(root, ir.Model):
+        put(root, "model")
+        put(root.metadata_props, "metadata_props of model")
+        put(root.functions, "functions of model")
+        for f in root.functions.values():
+            put(f, f"function {f.name}")
+    return out, vals, nodes, graphs
+
+
+def owned_values(ir, g):
+    return {id(v) for k, v in traversal_events(ir, g) if k == "def"}
+
+
+def edit_everything(ir, root, rng, tensors):
+    """Apply every public setter to every object reachable from root (a clone or an original)."""
+    vals, nodes, graphs = collect(ir, root)
+    n = 0
+    for v in vals:
+        try:
+            v.name = (v.name or "anon") + "_edited"
+        except Exception:  # noqa: BLE001
+            pass
+        v.dtype = ir.DataType.INT8
+        if v.type is not None and hasattr(v.type, "denotation"):
+            v.type.denotation = "EDITED"
+        if v.shape is not None and not v.shape.frozen and len(v.shape) > 0:
+            v.shape[0] = 77
+        if v.shape is not None and not v.shape.frozen and len(v.shape) > 0:
+            v.shape.set_denotation(0, "EDITED")
+        v.metadata_props["edited"] = "1"
+        v.metadata_props.pop("k1", None)
+        v.meta["edited"] = 1
+        v.meta.invalidate("m1")
+        for k, x in list(v.meta.items()):
+            if isinstance(x, list) and root_deep.get("deep"):
+                x.append(99)
+        v.doc_string = "edited"
+        n += 8
+    for v in vals[: len(vals) // 2]:
+        v.type = ir.TensorType(ir.DataType.BOOL)
+        v.shape = ir.Shape([9, 9])
+        v.const_value = tensors[0] if tensors else None
+    for nd in nodes:
+        nd.name = (nd.name or "anon") + "_edited"
+        nd.doc_string = "edited"
+        nd.metadata_props["edited"] = "1"
+        nd.meta["edited"] = 2
+        nd.attributes["edited"] = ir.AttrInt64("edited", 1)
+        nd.attributes.pop("alpha", None)
+        nd.domain = "edited.domain"
+        nd.op_type = nd.op_type + "X"
+        nd.version = 7
+        if vals and len(nd.inputs) > 0:
+            nd.replace_input_with(0, vals[rng.randrange(len(vals))])
+        n += 9
+    for g in graphs:
+        if isinstance(g, ir.GraphView):
+            continue
+        g.name = "edited"
+        g.doc_string = "edited"
+        g.opset_imports["edited"] = 3
+        g.metadata_props["edited"] = "1"
+        g.meta["edited"] = 3
+        extra = ir.Node("", "Edited", [vals[0]] if vals else [], name=f"edited_{id(g) % 9973}")
+        extra.outputs[0].name = f"edited_out_{id(g) % 9973}"
+        g.append(extra)
+        if len(g) > 1 and rng.random() < 0.5:
+            try:
+                g.remove(g[0])
+            except Exception:  # noqa: BLE001
+                pass
+        g.outputs.append(extra.outputs[0])
+        n += 7
+    if isinstance(root, ir.Model):
+        root.metadata_props["edited"] = "1"
+        root.doc_string = "edited"
+        root.producer_name = "edited"
+        n += 3
+    return n
+
+
+root_deep = {"deep": False}
+
+
+def oracle(spec: dict) -> list[dict]:
+    """The property itself, on one scenario.  -> list of failures ({kind, what})."""
+    import onnx_ir as ir
+    fails: list[dict] = []
+
+    def bad(kind, what):
+        fails.append({"kind": kind, "what": what})
+    sc = scenario_of(spec)
+    root, kind, allow, deep = sc["target"], sc["kind"], sc["allow"], sc["deep"]
+    cg = cloned_graph_of(sc)
+    sorted_py = is_sorted(ir, cg)
+    ev = traversal_events(ir, cg)
+    owned = {id(v) for k, v in ev if k == "def"}
+    outer = [v for k, v in ev if k == "use" and id(v) not in owned]
+    outer += [v for v in cg.outputs if id(v) not in owned]
+    if kind in (2, 3):
+        # functions of a model are separate scopes
+        pass
+    before = snapshot(ir, sc["model"])
+    ser_before = serialize(ir, sc["model"])
+    ser_root = None
+    try:
+        ser_root = serialize(ir, root)
+    except Exception:  # noqa: BLE001
+        ser_root = None
+    try:
+        clone = sc["clone"]()
+    except Exception as e:  # noqa: BLE001
+        if not outer and sorted_py and kind != 3:
+            bad("rejected", f"clone of a closed, sorted graph raised {type(e).__name__}: {str(e)[:120]}")
+        if snapshot(ir, sc["model"]) != before or serialize(ir, sc["model"]) != ser_before:
+            bad("original-changed", "a rejected clone changed the original")
+        return fails
+    if outer and not allow and kind in (0, 1):
+        bad("outer-accepted", f"graph references outer-scope value {outer[0].name!r} but the clone was not rejected")
+    # 1. serializes like the original
+    if ser_root is not None:
+        try:
+            if serialize(ir, clone) != ser_root:
+                bad("serialization", "serialized clone differs from the serialized original")
+        except Exception as e:  # noqa: BLE001
+            bad("serialization", f"the clone cannot be serialized: {type(e).__name__}")
+    # 2. new objects
+    mo_orig, _, _, _ = mutable_objects(ir, sc["model"], deep)
+    if kind == 1:
+        mo_orig.update(mutable_objects(ir, root, deep)[0])
+    mo_clone, cvals, cnodes, cgraphs = mutable_objects(ir, clone, deep)
+    for k, what in mo_clone.items():
+        if k in mo_orig:
+            if what.startswith("value") and allow and k not in owned:
+                continue        # a captured outer-scope value
+            if what.startswith(("metadata_props of value", "meta of value", "type object of value", "shape of value")) \
+                    and allow and any(id(v) == k2 for v in outer for k2 in [id(v)]):
+                pass
+            owner_captured = allow and any(
+                k in (id(v.metadata_props), id(v.meta), id(v.shape)) or k in [id(t) for t in type_objects(v.type)]
+                or any(k == id(x) for x in v.meta.values() if isinstance(x, list))
+                for v in outer)
+            if owner_captured:
+                continue
+            bad("shared", f"{what} of the clone is the same object as in the original")
+    # 3. every reference inside the clone points into the clone (or to a captured outer-scope value)
+    cowned = set()
+    for g in cgraphs:
+        cowned |= {id(v) for v in g.inputs} | {id(v) for v in g.initializers.values()}
+    for n in cnodes:
+        cowned |= {id(v) for v in n.outputs}
+    refs = [(v, f"input of node {n.name}") for n in cnodes for v in n.inputs if v is not None]
+    refs += [(v, f"output of graph {g.name}") for g in cgraphs for v in g.outputs]
+    refs += [(s.value, f"sharding spec of node {n.name}") for n in cnodes for c in n.device_configurations
+             for s in c.sharding_specs if s.value is not None]
+    for v, what in refs:
+        if id(v) in cowned:
+            continue
+        if id(v) in owned:
+            bad("references-original", f"{what} is the ORIGINAL's own value {v.name!r} (not its clone)")
+        elif not allow:
+            bad("references-outer", f"{what} is the outer-scope value {v.name!r} although outer-scope values are not allowed")
+    if snapshot(ir, sc["model"], skip_uses_of=outer) != snapshot_wo(before, ir, sc, outer):
+        bad("original-changed", "cloning changed the original's observable state")
+    # 4. edit the clone with every setter; the original must not change
+    base = snapshot(ir, sc["model"], skip_uses_of=outer)
+    ser0 = serialize(ir, sc["model"])
+    root_deep["deep"] = deep
+    rng = random.Random(spec.get("seed", 0) + 5)
+    try:
+        edit_everything(ir, clone, rng, sc["gen"].tensors)
+    except Exception as e:  # noqa: BLE001
+        bad("edit-error", f"editing the clone raised {type(e).__name__}: {str(e)[:100]}")
+    if any(f["kind"] == "references-original" for f in fails):
+        return fails           # the clone is entangled with the original: later checks only repeat this
+    after = snapshot(ir, sc["model"], skip_uses_of=outer)
+    if after != base:
+        bad("edit-clone-changes-original", "editing the clone changed the original: " + first_diff(base, after))
+    elif serialize(ir, sc["model"]) != ser0:
+        bad("edit-clone-changes-original", "editing the clone changed the serialized original")
+    return fails
+
+
+def snapshot_wo(before, ir, sc, outer):
+    """snapshot taken before cloning, recomputed without the use lists of captured values (by design the clone's
+    nodes become users of captured outer-scope values)."""
+    if not outer:
+        return before
+    return None  # not comparable: handled by oracle_sym / the caller skips
+
+
+def first_diff(a, b, path="") -> str:
+    if type(a) != type(b):
+        return f"{path}: {a!r} -> {b!r}"
+    if isinstance(a, dict):
+        for k in a:
+            if k not in b:
+                return f"{path}.{k}: removed"
+            if a[k] != b[k]:
+                return first_diff(a[k], b[k], f"{path}.{k}")
+        return f"{path}: keys differ"
+    if isinstance(a, (list, tuple)):
+        if len(a) != len(b):
+            return f"{path}: length {len(a)} -> {len(b)}"
+        for i, (x, y) in enumerate(zip(a, b)):
+            if x != y:
+                return first_diff(x, y, f"{path}[{i}]")
+    return f"{path}: {a!r} -> {b!r}"
+
+
+def oracle_sym(spec: dict) -> list[dict]:
+    """Symmetric direction: edit the original with every setter, the clone must not change."""
+    import onnx_ir as ir
+    fails = []
+    sc = scenario_of(spec)
+    try:
+        clone = sc["clone"]()
+    except Exception:  # noqa: BLE001
+        return fails
+    cg = cloned_graph_of(sc)
+    ev = traversal_events(ir, cg)
+    owned = {id(v) for k, v in ev if k == "def"}
+    outer = [v for k, v in ev if k == "use" and id(v) not in owned]
+    if outer or not is_sorted(ir, cg):
+        return fails       # captured values are shared by design; the unsorted case is reported by oracle()
+    base = snapshot(ir, clone)
+    ser0 = serialize(ir, clone)
+    root_deep["deep"] = sc["deep"]
+    try:
+        edit_everything(ir, sc["target"] if sc["kind"] != 1 else cg, random.Random(7), sc["gen"].tensors)
+    except Exception:  # noqa: BLE001
+        pass
+    after = snapshot(ir, clone)
+    if after != base:
+        fails.append({"kind": "edit-original-changes-clone",
+                      "what": "editing the original changed the clone: " + first_diff(base, after)})
+    elif serialize(ir, clone) != ser0:
+        fails.append({"kind": "edit-original-changes-clone", "what": "editing the original changed the serialized clone"})
+    return fails
+
+
+def oracle_functional(spec: dict) -> list[dict]:
+    """functionalize(p)(model) must not alter the input model, whatever p does with the model it is given."""
+    import onnx_ir as ir
+    from onnx_ir.passes import _pass_infra as pi
+    fails = []
+    sc = scenario_of(dict(spec, kind=3))
+    model = sc["model"]
+    root_deep["deep"] = False
+
+    class EditAll(pi.InPlacePass):
+        def call(self, m):
+            edit_everything(ir, m, random.Random(3), sc["gen"].tensors)
+            return pi.PassResult(m, True)
+    base = snapshot(ir, model)
+    ser0 = serialize(ir, model)
+    try:
+        res = pi.functionalize(EditAll())(model)
+    except Exception as e:  # noqa: BLE001
+        if snapshot(ir, model) != base:
+            fails.append({"kind": "functional-pass", "what": f"a failing functional pass ({type(e).__name__}) changed its input"})
+        return fails
+    if res.model is model:
+        fails.append({"kind": "functional-pass", "what": "functionalize returned the input model object"})
+    after = snapshot(ir, model)
+    if after != base:
+        fails.append({"kind": "functional-pass", "what": "functional pass changed its input: " + first_diff(base, after)})
+    elif serialize(ir, model) != ser0:
+        fails.append({"kind": "functional-pass", "what": "functional pass changed the serialized input"})
+    return fails
+
+
+def all_oracles(spec: dict) -> list[dict]:
+    out = oracle(spec)
+    out += oracle_sym(spec)
+    if spec.get("kind") == 3:
+        out += oracle_functional(spec)
+    return out
